@@ -134,9 +134,20 @@ func runExcNonNil(p *core.Program, r *core.Report) {
 				construct += " (again)"
 			}
 			seen[construct] = true
+			// an audit entry of a function also covers the pieces extracted
+			// from it (helpers all of whose call sites lie in that function)
+			auditWhy := excNonNilAudit[construct]
+			if auditWhy == "" {
+				for _, f := range uniqueCallerChain(p, fn)[1:] {
+					if w := excNonNilAudit[core.FnKey(f)+" wraps "+addrDesc(reason)+" in an exception"]; w != "" {
+						auditWhy = w
+						break
+					}
+				}
+			}
 			switch {
-			case excNonNilAudit[construct] != "":
-				r.Audit(rule, construct, p.InsPos(a), excNonNilAudit[construct])
+			case auditWhy != "":
+				r.Audit(rule, construct, p.InsPos(a), auditWhy)
 			case isMadeOnTheSpot(reason) || phiNonNil(reason, at):
 				r.OK(rule, construct, p.InsPos(a), "the reason is a concrete error value made here, or non-nil on every incoming path")
 			case nilGuarded(reason, at) || nilGuarded(throughCell(reason), at):
